@@ -21,7 +21,7 @@ FD criteria (R(h) residual of the difference scheme, T = sum of the absolute val
    R(h) = delta + a h^2 + b h^4 + ...  with delta = 0 for a solution of the PDE.  With h2 = h/2 and the Richardson
    value R_ex = (4 R(h2) - R(h))/3 = delta + O(h^4):
         (1) |R(h)|  <= 0.05 T                    (truncation is small against the terms: h = 0.02 dist(x, Gamma))
-        (2) |R(h2)| <= 0.30 |R(h)| + FLOOR T     (second order: the exact ratio is 0.25)
+        (2) |R(h2)| <= 0.35 |R(h)| + FLOOR T     (second order: the exact ratio is 0.25; observed 0.2501..0.2754)
         (3) |R_ex|  <= 0.05 |R(h)| + FLOOR T     (no h-independent defect)
    FLOOR = 1e-6 covers the O(h^4) remainder ((h/dist)^4 ~ 1.6e-7) and rounding (~1e-12); a defect delta > 3e-5 T
    is reported.  `curl E = ik H`, `div H = 0` and the scalar PDEs hold for the quadrature sums themselves (the kernel
@@ -49,8 +49,8 @@ TOL_SUM = 1e-12
 TOL_LIMIT = 1e-6
 TOL_TRANS = 1e-12
 FD_REL_H = 0.02
-FD_C1, FD_C2, FD_C3, FD_FLOOR = 0.05, 0.30, 0.05, 1e-6
-FLOOR_Q = 2e-5  # calibrated: observed quadrature defects of curl H + ik E and div E at order 10 <= 1e-6 T
+FD_C1, FD_C2, FD_C3, FD_FLOOR = 0.05, 0.35, 0.05, 1e-6
+FLOOR_Q = 2e-5  # calibrated: observed quadrature defects of curl H + ik E and div E: <= 3.3e-2 T at order 3, <= 7e-6 T at 6, <= 1e-7 T at 10
 INV4PI = 1.0 / (4.0 * math.pi)
 
 
